@@ -43,6 +43,10 @@ def parse_project(case):
         for sf in sources:
             for unit in sf.definitions:
                 unit.enrich(list(defs), recurse=True)
+    if case.get('rescope_after_parse'):
+        for sf in sources:
+            for unit in sf.definitions:
+                unit.rescope_symbols()
     return sources, defs
 
 
@@ -95,6 +99,14 @@ def _roots(value, nodes, exprs, units):
     elif isinstance(value, dict):
         for x in value.values():
             _roots(x, nodes, exprs, units)
+
+
+def type_dump(t):
+    """irdump.dump_type without attributes whose value is an empty tuple (shape=() means the same as no shape)"""
+    d = irdump.dump_type(t)
+    if isinstance(d, dict):
+        d = {k: v for k, v in d.items() if v != []}
+    return d
 
 
 class Inventory:
@@ -177,13 +189,14 @@ class Inventory:
                 for e in exprs:
                     for x in walk.expr_walk(e):
                         if isinstance(x, self._sym.TypedSymbol):
-                            self.attr_occurrences.append((x, f'symtab.{k}'))
+                            ek = 'member-entry' if '%' in name else ('imported-entry' if attrs.__dict__.get('imported') else 'declared-entry')
+                            self.attr_occurrences.append((x, f'symtab.{k}:{ek}'))
 
     # -- observations
     def symtabs(self):
         out = []
         for s, lab in zip(self.scopes, self.scope_labels):
-            out.append([lab, {str(k): irdump.dump_type(v) for k, v in sorted(dict.items(s.symbol_attrs))}])
+            out.append([lab, {str(k): type_dump(v) for k, v in sorted(dict.items(s.symbol_attrs))}])
         return out
 
     def token(self, symbol, foreign=()):
@@ -210,7 +223,7 @@ class Inventory:
         out = []
         for s, _ in self.occurrences:
             try:
-                out.append(irdump.dump_type(s.type))
+                out.append(type_dump(s.type))
             except Exception as e:  # noqa: a broken scope chain must be reported, not crash the harness
                 out.append(f'<raises {type(e).__name__}>')
         return out
@@ -251,3 +264,129 @@ def snapshot_diff(a, b):
                 return k, f'{len(la)} lines -> {len(lb)} lines'
             return k, irdump.first_difference(a[k], b[k]) or 'differs'
     return None
+
+
+# ------------------------------------------------------------------ presence probes for the listed known findings
+_DEFECTS = None
+
+_T_SRC = """
+module lv_tm
+  implicit none
+  type lv_t
+    integer :: n
+  end type lv_t
+contains
+  subroutine lv_h(a)
+    integer, intent(in) :: a
+  end subroutine lv_h
+end module lv_tm
+"""
+_K_SRC = """
+subroutine lv_k(a)
+  use lv_tm, only: lv_t, lv_h
+  implicit none
+  integer, intent(inout) :: a
+  type(lv_t) :: t
+  integer :: h
+  h = 2
+  print *, 'v', h
+  call lv_i(a)
+contains
+  subroutine lv_i(b)
+    integer, intent(inout) :: b
+    b = b + h
+  end subroutine lv_i
+end subroutine lv_k
+"""
+_P_SRC = """
+subroutine lv_p(a)
+  use lv_tm, only: lv_h
+  implicit none
+  integer, intent(inout) :: a
+  call lv_h(a)
+end subroutine lv_p
+"""
+_U_SRC = """
+module lv_u
+  use lv_tm, only: lv_h
+  implicit none
+contains
+  subroutine lv_r(a)
+    integer, intent(inout) :: a
+    call lv_h(a)
+  end subroutine lv_r
+end module lv_u
+"""
+_M_SRC = """
+module lv_m
+  implicit none
+  type lv_q
+    integer :: n
+  end type lv_q
+  type(lv_q) :: v
+end module lv_m
+"""
+
+
+def known_defects():
+    """
+    Which of the *listed* root causes (known_findings.d/C17.txt, C18.txt) are present in the tree under test.
+    Each probe is a fixed five-line experiment on a fixed tiny source, so the answer is a pure function of the
+    tree. The generators switch the trigger of a root cause off only while its probe says 'present'; once a fix
+    lands the trigger is generated again and anything that still fails surfaces as a new violation.
+    """
+    global _DEFECTS
+    if _DEFECTS is not None:
+        return _DEFECTS
+    import pickle
+    from loki import Sourcefile
+    from loki.expression import symbols as sym
+    from loki.expression.operations import Cast
+    from loki.types import DerivedType
+    d = {}
+    tsrc = Sourcefile.from_source(_T_SRC)
+    ksrc = Sourcefile.from_source(_K_SRC, definitions=tsrc.definitions)
+    k = ksrc['lv_k']
+    own = Inventory(k).owned_ids()
+    c = k.clone()
+    inv = Inventory(c)
+    toks = [(type(s).__name__, w, inv.token(s, [('src', own)])) for s, w in inv.occurrences]
+    d['dtsym-not-rescoped'] = any(cls == 'DerivedTypeSymbol' and t.startswith('FOREIGN') for cls, w, t in toks)
+    d['print-not-rescoped'] = any(w.startswith('PrintStmt') and t.startswith('FOREIGN') for cls, w, t in toks)
+    try:
+        pickle.loads(pickle.dumps(Cast('real', (sym.IntLiteral(1),), kind=sym.IntLiteral(8))))
+        d['cast-unpicklable'] = False
+    except Exception:  # noqa
+        d['cast-unpicklable'] = True
+    plain = Sourcefile.from_source(_K_SRC)['lv_k']
+    try:
+        p = pickle.loads(pickle.dumps(plain))
+        d['member-parent-lost'] = p.members[0].parent is not p
+    except Exception:  # noqa
+        d['member-parent-lost'] = True
+    m = Sourcefile.from_source(_M_SRC)['lv_m']
+    try:
+        pickle.dumps(pickle.loads(pickle.dumps(m)))
+        d['module-repickle-raises'] = False
+    except Exception:  # noqa
+        d['module-repickle-raises'] = True
+    mc = m.clone()
+    t = dict.get(mc.symbol_attrs, 'v')
+    d['typedef-link-to-source'] = isinstance(t.dtype, DerivedType) and t.dtype.typedef is m['lv_q']
+    pr = Sourcefile.from_source(_P_SRC, definitions=tsrc.definitions)['lv_p']
+    try:
+        d['procedure-link-dropped'] = (pickle.loads(pickle.dumps(pr)) != pr)
+    except Exception:  # noqa
+        d['procedure-link-dropped'] = True
+    # a module procedure calls a routine that the module imports; enrich() types the import but leaves the call name an
+    # unattached deferred symbol; __setstate__ -> rescope_symbols() attaches and resolves it, so the copy != the original
+    um = Sourcefile.from_source(_U_SRC)['lv_u']
+    um.enrich(list(Sourcefile.from_source(_T_SRC).definitions), recurse=True)
+    try:
+        kinds = [type(s).__name__ for s, w in Inventory(um).occurrences if w == 'CallStatement.name']
+        kinds2 = [type(s).__name__ for s, w in Inventory(pickle.loads(pickle.dumps(um))).occurrences if w == 'CallStatement.name']
+        d['unpickle-rescoping-not-identity'] = kinds != kinds2
+    except Exception:  # noqa
+        d['unpickle-rescoping-not-identity'] = True
+    _DEFECTS = d
+    return d
